@@ -179,7 +179,10 @@ def run(res, tier, seed):
                            # the first 60 lines of the pass are absent: the header start (line 1) lies on the previous UTC day
                            ("gac_klm", "noaa16", datetime.datetime(2001, 4, 11, 0, 0, 10), 61), ("gac_pod", "noaa14", datetime.datetime(1997, 1, 1, 0, 0, 5), 41),
                            # a pass of 1300 lines that crosses UTC midnight after 4 minutes: the whole pass is calibrated for the first line's date
-                           ("gac_klm", "noaa16", datetime.datetime(2003, 7, 19, 23, 56, 0), 1, 1300)]:
+                           ("gac_klm", "noaa16", datetime.datetime(2003, 7, 19, 23, 56, 0), 1, 1300),
+                           # TIROS-N shares its spacecraft code with NOAA-11; every pass before 1982 is TIROS-N
+                           ("gac_pod", "tirosn", datetime.datetime(1981, 6, 1, 10, 0, 0)), ("gac_pod", "tirosn", datetime.datetime(1981, 12, 30, 10, 0, 0)),
+                           ("gac_pod", "noaa11", datetime.datetime(1988, 11, 8, 10, 0, 0))]:
         lead_first = rest[0] if rest else 1
         W = l1b.FMT[fmt]["width"]
         samples = []
